@@ -133,9 +133,10 @@ Inductive cstep : heap -> cenv -> aop -> heap -> cenv -> list loc -> Prop :=
 | cs_fresh_imm : forall h e x, cstep h e (OpFresh x) h (cset x None e) []
 | cs_fresh_obj : forall h e x, cstep h e (OpFresh x) (h ++ [{| owned := false; kids := [] |}]) (cset x (Some (List.length h)) e) []
 | cs_deep : forall h e x ys h' r,
-    (* a deep copy: the new objects reach only new objects *)
+    (* a deep copy: the new objects reach only new objects of the new heap (no dangling contents:
+       an earlier version of this rule lacked the upper bound, and the soundness proof exposed it) *)
     extends h h' -> List.length h <= r -> r < List.length h' ->
-    (forall l k, List.length h <= l -> reach h' l k -> List.length h <= k) ->
+    (forall l k, List.length h <= l < List.length h' -> reach h' l k -> List.length h <= k < List.length h') ->
     cstep h e (OpDeep x ys) h' (cset x (Some r) e) []
 | cs_deep_imm : forall h e x ys, cstep h e (OpDeep x ys) h (cset x None e) []
 | cs_shallow : forall h e x ys ks,
